@@ -174,6 +174,11 @@ func acceptedCfg(t *rapid.T) gen.ProgCfg {
 	cfg.Binds = true
 	cfg.PDivZero = 8
 	cfg.PUnknown = 5
+	if gen.Chance(t, 20, "overlap") {
+		// block types that are also field names: an unnamed child block can be
+		// read back as a value (a Block on the operand stack, printed, compared)
+		cfg.Types = []string{"s", "t", "a", "b"}
+	}
 	return cfg
 }
 
